@@ -60,6 +60,11 @@ pub enum Expect {
     Nothing,
     Raw(KeyCode),
     ViaLayout,
+    /// keys that are modifier- or lock-like by name but not tracked by the decoder (ScrollLock,
+    /// the Win keys, the hidden right Alt of PrintScreen): the statement's "a modifier or lock
+    /// key press yields that raw key itself" can be read to cover them, so both RawKey(self)
+    /// and the layout's answer are accepted
+    RawOrViaLayout(KeyCode),
 }
 
 pub fn expect_output(bits: u16, k: KeyCode, s: KeyState) -> Expect {
@@ -70,6 +75,8 @@ pub fn expect_output(bits: u16, k: KeyCode, s: KeyState) -> Expect {
                 Expect::Raw(KeyCode::PauseBreak)
             } else if is_modifier_key(k) {
                 Expect::Raw(k)
+            } else if matches!(k, KeyCode::ScrollLock | KeyCode::LWin | KeyCode::RWin | KeyCode::RAlt2) {
+                Expect::RawOrViaLayout(k)
             } else {
                 Expect::ViaLayout
             }
